@@ -26,30 +26,14 @@ Theorem tokeniser_output_bounded : forall (fx v6 : bool) (want : nat) (s : list 
 Proof. exact tokenise_bounded. Qed.
 
 (* ---- version gates: parser table (translated) = HISTORY table (transcribed) ---- *)
-Theorem gates_agree_partial :
-  forall g, g <> S_LINCOM_COUNT_OPTIONAL -> code_gate g = Some (spec_gate g).
-Proof. exact gates_partial. Qed.
-
-(* the optional LINCOM count ("Version 7 ... made the number of fields parameter
-   for LINCOM optional") is not gated in the pinned tree (0) or gated at 7
-   (proposed_fixes/C08-7) *)
-Theorem gates_lincom_count_status :
-  code_gate S_LINCOM_COUNT_OPTIONAL = Some 0%nat \/
-  code_gate S_LINCOM_COUNT_OPTIONAL = Some (spec_gate S_LINCOM_COUNT_OPTIONAL).
-Proof. exact gates_lincom_count. Qed.
-
-(* so the full statement `forall g, code_gate g = Some (spec_gate g)` is decided
-   on whatever tree was translated *)
-Theorem gates_agree_decided :
-  gates_agree_statement \/ (exists g, code_gate g <> Some (spec_gate g)).
-Proof. exact gates_decided. Qed.
+Theorem gates_agree : forall g, code_gate g = Some (spec_gate g).
+Proof. exact gates_agree_all. Qed.
 
 Theorem gates_translation_complete : translator_problems = 0%nat.
 Proof. exact translator_clean. Qed.
 
 (* what it means for the parser *)
 Theorem feature_applies_as_standards : forall pedantic standards g,
-  g <> S_LINCOM_COUNT_OPTIONAL ->
   code_applies pedantic standards g = spec_applies pedantic standards g.
 Proof. exact applies_agree. Qed.
 
@@ -63,60 +47,28 @@ Proof. exact validate_name_fixed. Qed.
    entire token cannot be parsed as a literal number using the rules outlined
    in strtod(3)" (+ the complex form a;b).  strtoll/strtoull/strtod are the
    C11 reference functions over the grammars of LitSpec.v; the arithmetic of
-   double (F, fval, ferange, conversions) is universally quantified; cf selects
-   the variant of the code (cfg_current = src/parse.c as it is; the other
-   variants are the pending repairs C07-3, C07-4, C08-4, C08-5). *)
+   double (F, fval, ferange, conversions) is universally quantified;
+   cfg_current = src/parse.c as it is. *)
 Definition literal_rule_statement (cf : cfg) : Prop :=
   forall (F : Type) fval ferange f_of_Z (f_zero : F) f_is_zero f_neg f_trunc f_small ped st w tok,
     parts_nonempty tok ->
     (toktonum F fval ferange f_of_Z f_zero f_is_zero f_neg f_trunc f_small cf ped st w tok = NotNumber F
      <-> spec_is_number tok = false).
 
-(* refuted for the code as it is: when strtod sets ERANGE (1e999, or an inexact
-   subnormal such as 1e-310) a literal of the Standards is taken for a field code *)
-Theorem literal_rule_refuted : ~ literal_rule_statement cfg_current.
-Proof.
-  intro H.
-  specialize (H unit (fun _ => tt) (fun _ => true) (fun _ : Z => tt) tt (fun _ => false) (fun _ => false)
-                (fun _ => Z0) (fun _ => false) false 10%nat WFloat [49; 101; 57; 57; 57]).
-  destruct erange_literal_is_field_code as [A B]. simpl in A, B.
-  assert (NE: parts_nonempty [49; 101; 57; 57; 57]) by (vm_compute; discriminate).
-  destruct (H NE) as [H1 _]. rewrite (H1 A) in B. discriminate.
-Qed.
+(* the full statement, for the code as it is: whatever strtod reports *)
+Theorem literal_rule_agrees : literal_rule_statement cfg_current.
+Proof. intros F. intros. apply toktonum_classifies; [assumption | right; reflexivity]. Qed.
 
-(* the exact excluded region: strtod reports ERANGE on a part (any variant) *)
-Theorem literal_rule_partial :
-  forall (cf : cfg) (F : Type) fval ferange f_of_Z (f_zero : F) f_is_zero f_neg f_trunc f_small ped st w tok,
-    parts_nonempty tok -> parts_in_range ferange tok \/ c_oflow cf = true ->
-    (toktonum F fval ferange f_of_Z f_zero f_is_zero f_neg f_trunc f_small cf ped st w tok = NotNumber F
-     <-> spec_is_number tok = false).
-Proof. intros. apply toktonum_classifies; assumption. Qed.
-
-(* with proposed_fixes/C08-5 (c_oflow) the full statement holds *)
-Theorem literal_rule_agrees : forall cf, c_oflow cf = true -> literal_rule_statement cf.
-Proof. intros cf H F. intros. apply toktonum_classifies; [assumption | right; assumption]. Qed.
-
-(* integer literals that fit 64 bits are read exactly ... *)
+(* integer literals that fit 64 bits are read exactly (a zero goes through
+   strtod when a floating-point value is wanted, which is what keeps -0) *)
 Theorem integer_literal_exact :
-  forall (F : Type) fval ferange (f_zero : F) f_small cf wantf base p tl semi z,
+  forall (F : Type) fval ferange (f_zero : F) f_small wantf base p tl semi z,
     no_semi p = true -> p <> [] -> (tl = [] \/ exists r, tl = 59 :: r) -> (tl = [] \/ semi = true) ->
     int_lit base p = Some z -> (INT64_MIN <= z <= UINT64_MAX)%Z ->
-    c_zero cf && wantf && (z =? 0)%Z = false ->
-    scan_part F fval ferange f_zero f_small cf wantf base semi (p ++ tl) =
+    wantf && (z =? 0)%Z = false ->
+    scan_part F fval ferange f_zero f_small cfg_current wantf base semi (p ++ tl) =
     Some (if (z <=? INT64_MAX)%Z then TInt F z else TUInt F z, length p).
-Proof. exact int_literal_value. Qed.
-
-(* ... but, in the code as it is, one below INT64_MIN whose magnitude still
-   fits 64 bits comes out positive *)
-Theorem integer_literal_sign_refuted :
-  scan_part unit (fun _ => tt) (fun _ => false) tt (fun _ => false) cfg_current true 0 true minus_2_63_minus_1
-    = Some (TUInt unit 9223372036854775807%Z, 20%nat) /\
-  spec_int_value 0 minus_2_63_minus_1 = Some (-9223372036854775809)%Z.
-Proof. exact negative_overflow_sign_flip. Qed.
-
-Example literal_rule_region_inhabited :
-  parts_nonempty [49; 59; 50] /\ parts_in_range (fun _ => false) [49; 59; 50].
-Proof. split; vm_compute; repeat split; discriminate. Qed.
+Proof. intros. apply int_literal_value; assumption. Qed.
 
 (* ---- the syntax-error callback protocol (gd_cbopen(3)); Callback.v models the
    loop of _GD_ParseFragment around D->sehandler ---- *)
